@@ -248,6 +248,17 @@ pub fn load_known(root: &std::path::Path) -> Vec<Known> {
     out
 }
 
+/// Engine-side wall cap: a run that is still going after the cap (quick: 15 min, thorough: 8 h,
+/// `VERIF_WALL_CAP_S` overrides) is a machinery failure (exit 2), never a verdict and never a hang.
+pub fn start_watchdog(tier: Tier) {
+    let cap = std::env::var("VERIF_WALL_CAP_S").ok().and_then(|s| s.parse::<u64>().ok()).unwrap_or(if tier.is_quick() { 900 } else { 8 * 3600 });
+    std::thread::spawn(move || {
+        std::thread::sleep(std::time::Duration::from_secs(cap));
+        eprintln!("MACHINERY: wall cap of {cap} s exceeded - the check did not finish (not a verdict)");
+        std::process::exit(2);
+    });
+}
+
 /// Parse `--tier quick|thorough` / `--replay <file>` style arguments (after the property id).
 pub struct Args {
     pub tier: Tier,
